@@ -107,6 +107,12 @@ def scenarios(tier: str) -> List[Dict[str, Any]]:
                         out.append(dict(tc=tc, grace=grace, flip=flip, pre=pre,
                                         leave=[[how, "D"], ev_send("P", fr(tc, T1, b"uncover", src_mod_id=IDS["P"], dest_mod_id=dest))],
                                         orders=True, leavers=[("D", pos)], label=f"{pos}/write-forward/{how}/dest{dest}"))
+                        if dest == 0:
+                            # ... while another subscriber of the type cannot take the message: the notice about THAT is a delivery
+                            # of its own, nested in the first, and it is during the nested one that the leaver is found dead
+                            out.append(dict(tc=tc, grace=grace, flip=flip, pre=pre,
+                                            leave=[[how, "D"], ev_send("P", fr(tc, T1, b"uncover", src_mod_id=IDS["P"]))], nonwritable=["S"],
+                                            orders=True, leavers=[("D", pos)], label=f"{pos}/write-forward/{how}/another-subscriber-not-writable"))
             if pos != "accepted":
                 # ... during its own ACK
                 for how in ("fin", "rst"):
